@@ -129,7 +129,7 @@ func execLocal(m *hostile.Meter, wd *hostile.Watchdog, e *entry, key string, in 
 		}()
 		wd.End()
 	}
-	if !e.live && o.Exact > hostile.Bound(len(in)) {
+	if !e.live && (o.Exact > hostile.Bound(len(in)) || os.Getenv("C04_DEBUG") == "attribute") {
 		// name the code that allocates: a third, profiled run
 		service.VerifResetReplayCache()
 		wd.Begin(e.name, key, in)
@@ -283,6 +283,9 @@ func (h *harness) runCase(e *entry, key string, in []byte) (event bool) {
 	}
 	h.r.Eval(key, true)
 	st[0]++
+	if os.Getenv("C04_DEBUG") != "" {
+		fmt.Fprintf(os.Stderr, "C04_DEBUG case=%q len=%d res=%d alloc=%d exact=%d by=%q bound=%d panicked=%v fatal=%q hang=%v\n", key, len(in), o.Res, o.Alloc, o.Exact, o.AllocBy, hostile.Bound(len(in)), o.Panicked, o.Fatal, o.Hang)
+	}
 	switch {
 	case o.Fatal != "":
 		st[6]++
